@@ -66,6 +66,9 @@ pub const SPECIAL: &[&str] = &[
     "OUT",
     "OUT_en?",
     "OUTA?",
+    // longer than the 12 characters SCPI recommends for a mnemonic
+    "TemperatureCompensation:A",
+    "CALibration:TemperatureCompensation?",
 ];
 
 pub const STD_VERSION: &str = "SYSTem:VERSion?";
